@@ -66,14 +66,20 @@ type halfCloser interface{ CloseWrite() error }
 func runTCP(e *Exchange, p Ports, o execOpts) (string, bool) {
 	ws := e.Materialize(nil)
 	addr := p.addr(e.Seed.Port)
-	var conns []net.Conn
-	var resp []*bytes.Buffer
+	type connState struct {
+		c        net.Conn
+		buf      bytes.Buffer // first 64 KB of what the server sent
+		rx       int64        // total number of bytes received
+		rxAtSend int64        // rx when the last message was written
+		lastRx   time.Time
+		done     bool // the reader has ended (the server closed, or we did)
+	}
+	var conns []*connState
 	var wg sync.WaitGroup
 	var rmu sync.Mutex
-	getConn := func(i int) (net.Conn, error) {
+	getConn := func(i int) (*connState, error) {
 		for len(conns) <= i {
 			conns = append(conns, nil)
-			resp = append(resp, &bytes.Buffer{})
 		}
 		if conns[i] != nil {
 			return conns[i], nil
@@ -89,11 +95,12 @@ func runTCP(e *Exchange, p Ports, o execOpts) (string, bool) {
 				c.Close()
 				return nil, err
 			}
+			_ = tc.SetDeadline(time.Time{})
 			c = tc
 		}
-		conns[i] = c
+		cs := &connState{c: c}
+		conns[i] = cs
 		// drain concurrently so that the server never blocks on writing
-		buf := resp[i]
 		wg.Add(1)
 		go func() {
 			defer wg.Done()
@@ -101,8 +108,15 @@ func runTCP(e *Exchange, p Ports, o execOpts) (string, bool) {
 			for {
 				n, err2 := c.Read(tmp)
 				rmu.Lock()
-				if n > 0 && buf.Len() < 1<<16 {
-					buf.Write(tmp[:n])
+				if n > 0 {
+					if cs.buf.Len() < 1<<16 {
+						cs.buf.Write(tmp[:n])
+					}
+					cs.rx += int64(n)
+					cs.lastRx = time.Now()
+				}
+				if err2 != nil {
+					cs.done = true
 				}
 				rmu.Unlock()
 				if err2 != nil {
@@ -110,14 +124,14 @@ func runTCP(e *Exchange, p Ports, o execOpts) (string, bool) {
 				}
 			}
 		}()
-		return c, nil
+		return cs, nil
 	}
 	class := ""
 	for _, w := range ws {
 		if w.Pause > 0 {
 			time.Sleep(time.Duration(w.Pause) * time.Millisecond)
 		}
-		c, err := getConn(w.Conn)
+		cs, err := getConn(w.Conn)
 		if err != nil {
 			class = "dial-error"
 			break
@@ -125,47 +139,106 @@ func runTCP(e *Exchange, p Ports, o execOpts) (string, bool) {
 		if w.WaitResp {
 			for i := 0; i < 100; i++ {
 				rmu.Lock()
-				got := resp[w.Conn].Len()
+				ready := cs.rx > cs.rxAtSend || cs.done
 				rmu.Unlock()
-				if got > 0 {
+				if ready {
 					break
 				}
 				time.Sleep(20 * time.Millisecond)
 			}
 		}
-		_ = c.SetWriteDeadline(time.Now().Add(5 * time.Second))
-		if len(w.Data) > 0 {
-			if _, err = c.Write(w.Data); err != nil {
+		data := w.Data
+		for _, ec := range e.Seed.Echo {
+			if !bytes.Contains(data, []byte(ec.Placeholder)) {
+				continue
+			}
+			val := ec.Default
+			rmu.Lock()
+			if all := ec.Re.FindAllSubmatch(cs.buf.Bytes(), -1); len(all) > 0 && len(all[len(all)-1]) > 1 {
+				val = string(all[len(all)-1][1])
+			}
+			rmu.Unlock()
+			data = bytes.ReplaceAll(data, []byte(ec.Placeholder), []byte(val))
+		}
+		_ = cs.c.SetWriteDeadline(time.Now().Add(5 * time.Second))
+		rmu.Lock()
+		cs.rxAtSend = cs.rx
+		rmu.Unlock()
+		if len(data) > 0 {
+			if _, err = cs.c.Write(data); err != nil {
 				class = "write-error"
 				break
 			}
 		}
 	}
-	deadline := time.Now().Add(o.drain)
-	for _, c := range conns {
-		if c == nil {
+	halfClosed := time.Now()
+	deadline := halfClosed.Add(o.drain)
+	for _, cs := range conns {
+		if cs == nil {
 			continue
 		}
-		if hc, ok := c.(halfCloser); ok {
+		if hc, ok := cs.c.(halfCloser); ok {
 			_ = hc.CloseWrite()
 		}
-		_ = c.SetReadDeadline(deadline)
+		_ = cs.c.SetReadDeadline(deadline)
 	}
-	wg.Wait()
-	closedByServer := time.Now().Before(deadline) && len(conns) > 0
-	for _, c := range conns {
-		if c != nil {
-			c.Close()
+	allDone := make(chan struct{})
+	go func() { wg.Wait(); close(allDone) }()
+	streaming := false
+	if e.Seed.Streams {
+		// a server that keeps sending is past every request of the exchange (it is serving the stream and, for RTMP,
+		// does not read any more): the client goes away instead of waiting for the server to close
+	poll:
+		for {
+			select {
+			case <-allDone:
+				break poll
+			case <-time.After(50 * time.Millisecond):
+			}
+			now := time.Now()
+			if now.Sub(halfClosed) < 700*time.Millisecond {
+				continue
+			}
+			rmu.Lock()
+			for _, cs := range conns {
+				if cs != nil && !cs.done && now.Sub(cs.lastRx) < 300*time.Millisecond {
+					streaming = true
+				}
+			}
+			rmu.Unlock()
+			if streaming {
+				for _, cs := range conns {
+					if cs != nil {
+						cs.c.Close()
+					}
+				}
+				break poll
+			}
+		}
+	}
+	<-allDone
+	closedByServer := !streaming && time.Now().Before(deadline) && len(conns) > 0
+	for _, cs := range conns {
+		if cs != nil {
+			cs.c.Close()
 		}
 	}
 	if class != "" {
 		return class, false
 	}
 	var parts []string
-	for _, b := range resp {
-		parts = append(parts, classifyTCP(e.Seed, b.Bytes()))
+	for _, cs := range conns {
+		if cs == nil {
+			parts = append(parts, "unused")
+			continue
+		}
+		parts = append(parts, classifyTCP(e.Seed, cs.buf.Bytes()))
 	}
-	return strings.Join(parts, "+"), closedByServer
+	cl := strings.Join(parts, "+")
+	if streaming {
+		cl += "+streaming"
+	}
+	return cl, closedByServer
 }
 
 // classifyTCP summarises the answer: status codes for text protocols, size class for binary ones.
